@@ -52,6 +52,9 @@ fn case(h: &H, idx: u64, kind: u64, rng: &mut Rng) {
                 return;
             };
             h.class("tmerc-vs-btmerc");
+            if h.want_sample() {
+                h.sample(J::obj().set("routes", "tmerc vs btmerc").set("parameters", &pars));
+            }
             h.distinct(hash_str(&pars));
             for _ in 0..40 {
                 let p = [(lon0 + rng.range(-3.0, 3.0)) * D2R, rng.range(-89.0, 89.0) * D2R, 0.0, 0.0];
@@ -243,6 +246,9 @@ fn case(h: &H, idx: u64, kind: u64, rng: &mut Rng) {
                 return;
             };
             h.class("axisswap-vs-adapt");
+            if h.want_sample() {
+                h.sample(J::obj().set("routes", "axisswap vs adapt").set("adapt", &adef).set("axisswap", &sdef));
+            }
             h.distinct(hash_str(&adef));
             for d in [D::F, D::I] {
                 let p = [rng.range(-9.0, 9.0), rng.range(10.0, 90.0), rng.range(100.0, 900.0), rng.range(1000.0, 9000.0)];
